@@ -85,7 +85,7 @@ type c11Outcome struct {
 	Func    string `json:"func,omitempty"`   // function of that frame
 	Stack   string `json:"stack,omitempty"`  // bounded Go stack (violations only)
 	GasUsed int64  `json:"gas_used"`
-	RSSMB   int64  `json:"rss_mb"`  // peak resident set of the child so far
+	RSSMB   int64  `json:"rss_mb"`  // resident set of the child right after the input
 	BaseMB  int64  `json:"base_mb"` // resident set of the child after warm-up
 	MS      int64  `json:"ms"`
 }
